@@ -230,6 +230,13 @@ def run(ctx):
                 if rebinds or reseeds:
                     ok = False
                     why = '%s %s the generator (`%s`)' % (m_.qualname, 're-creates' if rebinds else 're-seeds', norm(n)[:60])
+            # ... and nothing but the decision draws from it: any other consumer shifts every later decision
+            if m_ is not func:
+                others_ = [n for n in ast.walk(m_.node) if isinstance(n, ast.Attribute) and isinstance(n.ctx, ast.Load) and _self_attr(n) in gfields]
+                if others_:
+                    ok = False
+                    why = '%s also uses the sampling generator (`%s`): the i-th decision is no longer the i-th draw of the seeded sequence' % (
+                        m_.qualname, norm(others_[0])[:50])
         cb.instance('%s draws from the instance generator built from the seed' % func.qualname, func.qualname, ok, detail=why)
         cb.evaluations += len(draws)
         if not ok:
